@@ -94,6 +94,13 @@ def exec_hist(c):
                     res = ["trees", [ident(t.source) for t in objs[act["o"] - 1]]]
                 elif a == "map":
                     res = ["trees", [ident(s) for s in objs[act["o"] - 1].map(source_of, max_worker=1)]]
+                elif a == "ptransform":
+                    from swcgeom.transforms import PopulationTransform, Translate
+                    newp = PopulationTransform(Translate(1.0, 0.0, 0.0))(objs[act["o"] - 1])
+                    out = []
+                    for t in newp:          # the new population holds the transformed trees (x of the three nodes: 0,1,2 -> 1,2,3)
+                        out.append(ident(t.source) if [float(v) for v in t.x()] == [1.0, 2.0, 3.0] else [0, "not-transformed"])
+                    res = ["trees", out]
                 elif a == "len":
                     res = ["len", len(objs[act["o"] - 1])]
                 elif a == "zip":
@@ -184,6 +191,8 @@ def free_histories(ctx, count):
                 choices += ["slice"] * 2 + ["zipof"]
                 if rng.random() < 0.05:
                     choices += ["map"]
+                if rng.random() < 0.3:
+                    choices += ["ptransform"]
             if zips:
                 choices += ["zipindex"] * 2 + ["topop"] * 2
             if len(used) + 2 <= nroot and rng.random() < 0.3:
@@ -198,7 +207,7 @@ def free_histories(ctx, count):
             elif a in ("iter", "len"):
                 o = rng.choice(conts if a == "iter" else conts + zips)
                 hist.append({"a": a, "o": o})
-            elif a == "map":
+            elif a in ("map", "ptransform"):
                 hist.append({"a": a, "o": rng.choice(pops)})
             elif a == "slice":
                 o = rng.choice(pops); n = lens[o - 1]
